@@ -956,6 +956,82 @@ func H_c10_agent_life() {
 	verif_witness()
 }
 
+// H_c10_crash: the process is killed at an arbitrary point of a sequence of 1..3 operations
+// (registration, death, link added/removed, listener added/removed) - before any of its
+// statements, between two of them, or never; operations after the kill fail. Reopening the
+// database yields exactly what the acknowledged operations (those that returned success)
+// left: nothing acknowledged is missing, nothing unacknowledged is there. (Model only: every
+// SQL statement is atomic and durable; the kill cannot be replayed natively.)
+func H_c10_crash() {
+	d := verifOpenDB()
+	ids := []uint32{0x00a1b2c3, 0x90a1b2c4}
+	var ag [2]*agent.Agent
+	for i := range ag {
+		ag[i] = &agent.Agent{NameID: verifHex8(ids[i]), Active: true, Info: new(agent.AgentInfo)}
+		ag[i].Encryption.AESKey = []byte{1, 2}
+		ag[i].Encryption.AESIv = []byte{3, 4}
+		ag[i].Info.Hostname = "h"
+	}
+	n := 1 + nondet_choice("operations", verif_bound("crash-ops", 3, 4))
+	verifKillAfter = nondet_choice("killed-before-this-write-statement", n+1)
+	var alive [2]bool
+	link, listener := false, false
+	for k := 0; k < n; k++ {
+		switch nondet_choice("operation", 7) {
+		case 0, 1:
+			i := nondet_choice("which", 2)
+			if d.AgentAdd(ag[i]) == nil {
+				alive[i] = true
+			}
+		case 2:
+			i := nondet_choice("which", 2)
+			ag[i].Active = false
+			if d.AgentUpdate(ag[i]) == nil {
+				alive[i] = false
+			}
+			ag[i].Active = true
+		case 3:
+			if d.LinkAdd(int(ids[0]), int(ids[1])) == nil {
+				link = true
+			}
+		case 4:
+			if d.LinkRemove(int(ids[0]), int(ids[1])) == nil {
+				link = false
+			}
+		case 5:
+			if d.ListenerAdd("w", "Http", "{}") == nil {
+				listener = true
+			}
+		case 6:
+			if d.ListenerRemove("w") == nil {
+				listener = false
+			}
+		}
+	}
+	d = verifReopen()
+	all := d.AgentAll()
+	want := 0
+	for i := range ag {
+		found := 0
+		for _, r := range all {
+			if r.NameID == ag[i].NameID {
+				found++
+			}
+		}
+		if alive[i] {
+			want++
+			verif_assert(found == 1, "a session whose registration was acknowledged before the kill is restored")
+		} else {
+			verif_assert(found == 0, "a session that was never acknowledged, or whose death was, is not restored")
+		}
+	}
+	verif_assert(len(all) == want, "nothing else is restored after the kill")
+	verif_assert(d.LinkExist(int(ids[0]), int(ids[1])) == link, "exactly the acknowledged link changes survive the kill")
+	verif_assert(d.ListenerExist("w") == listener, "exactly the acknowledged listener changes survive the kill")
+	verif_assert(verifIdle(d), verifIdleLabel)
+	verif_witness()
+}
+
 // H_c10_links: after any sequence of 1..4 link additions/removals over three agents and a
 // restart, the database yields exactly the parent/child pairs that were added and not removed.
 func H_c10_links() {
